@@ -1571,4 +1571,196 @@ theorem nested_fields (P : Parse) (σ : Supplied) (vars : Vars) :
         (fun l hl => by simpa using nested_lit P σ vars ty l false hl) lfs h.1]
 end
 
+
+/-! ## The static check agrees with the run-time coercion on closed literals -/
+
+theorem mapAll_isSome {α β : Type} {f : α → Option β} :
+    ∀ (xs : List α), (mapAll f xs).isSome = xs.all (fun x => (f x).isSome)
+  | [] => rfl
+  | x :: xs => by
+    simp only [mapAll, List.all_cons]
+    cases hx : f x with
+    | none => simp
+    | some y =>
+      have := mapAll_isSome (f := f) xs
+      cases hm : mapAll f xs <;> simp_all
+
+theorem all_congr_mem {α : Type} {f g : α → Bool} : ∀ {xs : List α}, (∀ x ∈ xs, f x = g x) → xs.all f = xs.all g
+  | [], _ => rfl
+  | x :: xs, h => by
+    simp only [List.all_cons]
+    rw [h x (List.mem_cons_self ..), all_congr_mem (fun y hy => h y (List.mem_cons_of_mem _ hy))]
+
+theorem noDupL_forall : ∀ {xs : List Lit}, Lit.noDupL xs = true → ∀ x ∈ xs, x.noDup = true
+  | [], _, x, hx => by simp at hx
+  | y :: ys, h, x, hx => by
+    simp only [Lit.noDupL, Bool.and_eq_true] at h
+    rcases List.mem_cons.mp hx with rfl | hx
+    · exact h.1
+    · exact noDupL_forall h.2 x hx
+
+theorem noDupF_forall : ∀ {fs : List (String × Lit)}, Lit.noDupF fs = true → ∀ p ∈ fs, p.2.noDup = true
+  | [], _, p, hp => by simp at hp
+  | q :: qs, h, p, hp => by
+    simp only [Lit.noDupF, Bool.and_eq_true] at h
+    rcases List.mem_cons.mp hp with rfl | hp
+    · exact h.1
+    · exact noDupF_forall h.2 p hp
+
+/-- With distinct keys a literal writes at most one entry for a field. -/
+theorem filter_key {name : String} : ∀ {m : List (String × Lit)}, noDupKeys m = true →
+    m.filter (fun p => p.1 == name)
+      = match m.lookup name with
+        | some v => [(name, v)]
+        | none => []
+  | [], _ => rfl
+  | (k, v) :: rest, h => by
+    simp only [noDupKeys, Bool.and_eq_true] at h
+    obtain ⟨hfresh, hrest⟩ := h
+    have hfresh' : rest.any (fun q => q.1 == k) = false := by simpa using hfresh
+    simp only [List.filter_cons, List.lookup]
+    cases hk : k == name
+    · have : (name == k) = false := by
+        cases hb : name == k
+        · rfl
+        · have e : name = k := by simpa using hb
+          subst e; simp at hk
+      simp only [this]
+      exact filter_key hrest
+    · have e : k = name := by simpa using hk
+      subst e
+      simp only [beq_self_eq_true, if_true]
+      rw [filter_key hrest, lookup_none_of_not_any hfresh']
+
+theorem lookup_mem {α : Type} {name : String} : ∀ {m : List (String × α)} {v : α}, m.lookup name = some v → ∃ k, (k, v) ∈ m
+  | [], _, h => by simp at h
+  | (k, w) :: rest, v, h => by
+    simp only [List.lookup] at h
+    split at h
+    · cases h; exact ⟨k, List.mem_cons_self ..⟩
+    · obtain ⟨k', hk'⟩ := lookup_mem h; exact ⟨k', List.mem_cons_of_mem _ hk'⟩
+
+theorem any_key_eq_lookup {name : String} : ∀ (m : List (String × Lit)),
+    m.any (fun p => p.1 == name) = (m.lookup name).isSome
+  | [] => rfl
+  | (k, v) :: rest => by
+    simp only [List.any_cons, List.lookup]
+    cases hk : k == name
+    · have : (name == k) = false := by
+        cases hb : name == k
+        · rfl
+        · have e : name = k := by simpa using hb
+          subst e; simp at hk
+      simp [this, any_key_eq_lookup rest]
+    · have e : k = name := by simpa using hk
+      subst e; simp
+
+theorem coerceLit_nonNull_not_nil (P : Parse) {T : Ty} {l : Lit} {a : Bool} {x : GoVal}
+    (hnn : isNonNull T = true) (hc : containsVar l = false) (h : coerceLit P [] T l a = some x) :
+    x.isNil = false := by
+  cases T <;> simp [isNonNull] at hnn
+  rename_i t
+  cases l with
+  | null => simp [coerceLit, isNonNull] at h
+  | var n => simp [containsVar] at hc
+  | int z => exact coerceLit_not_nil P [] _ _ a x rfl h
+  | float z => exact coerceLit_not_nil P [] _ _ a x rfl h
+  | str z => exact coerceLit_not_nil P [] _ _ a x rfl h
+  | bool z => exact coerceLit_not_nil P [] _ _ a x rfl h
+  | enum z => exact coerceLit_not_nil P [] _ _ a x rfl h
+  | list z => exact coerceLit_not_nil P [] _ _ a x rfl h
+  | obj z => exact coerceLit_not_nil P [] _ _ a x rfl h
+
+mutual
+/-- `validateCoercion` accepts a closed literal exactly when `coerceLiteral` succeeds on it. -/
+theorem validate_eq_coerces (P : Parse) :
+    ∀ (T : Ty) (l : Lit) (a : Bool), containsVar l = false → l.noDup = true →
+      validateCoercion P T l a = (coerceLit P [] T l a).isSome
+  | .scalar k, l, a, hc, _ => by
+    cases l <;> simp_all [validateCoercion, coerceLit, containsVar] <;> cases isNonNull (Ty.scalar k) <;> simp
+  | .enum n vs, l, a, hc, _ => by
+    cases l <;> simp_all [validateCoercion, coerceLit, containsVar]
+    · cases isNonNull (Ty.enum n vs) <;> simp
+    · split <;> simp_all
+  | .inputObj n fs, l, a, hc, hd => by
+    cases l with
+    | var n => simp [containsVar] at hc
+    | obj lfs =>
+      simp only [Lit.noDup, Bool.and_eq_true] at hd
+      have hcl := containsVarF_false (by simpa [containsVar] using hc)
+      have := validateFields_eq_coerces P fs lfs hcl hd.1 (noDupF_forall hd.2)
+      simp only [validateCoercion, coerceLit, hd.1, Bool.true_and, this]
+      cases lfs.all (fun p => fs.hasName p.1) <;> simp
+    | null => simp [validateCoercion, coerceLit, isNonNull]
+    | int z => simp [validateCoercion, coerceLit]
+    | float z => simp [validateCoercion, coerceLit]
+    | str z => simp [validateCoercion, coerceLit]
+    | bool z => simp [validateCoercion, coerceLit]
+    | enum z => simp [validateCoercion, coerceLit]
+    | list z => simp [validateCoercion, coerceLit]
+  | .list t, l, a, hc, hd => by
+    have leaf : ∀ (l : Lit), containsVar l = false → l.noDup = true →
+        (a && validateCoercion P t l true)
+          = (if a = true then (coerceLit P [] t l true).map (fun y => GoVal.list [y]) else none).isSome := by
+      intro l hc hd
+      rw [validate_eq_coerces P t l true hc hd]
+      cases a <;> simp
+    cases l with
+    | var n => simp [containsVar] at hc
+    | null => simp [validateCoercion, coerceLit, isNonNull]
+    | list xs =>
+      have hx := containsVarL_false (by simpa [containsVar] using hc)
+      have hdx := noDupL_forall (by simpa [Lit.noDup] using hd)
+      simp only [validateCoercion, coerceLit, Option.isSome_map, mapAll_isSome]
+      apply all_congr_mem
+      intro x hxm
+      exact validate_eq_coerces P t x false (hx x hxm) (hdx x hxm)
+    | int z => simpa only [validateCoercion, coerceLit] using leaf _ hc hd
+    | float z => simpa only [validateCoercion, coerceLit] using leaf _ hc hd
+    | str z => simpa only [validateCoercion, coerceLit] using leaf _ hc hd
+    | bool z => simpa only [validateCoercion, coerceLit] using leaf _ hc hd
+    | enum z => simpa only [validateCoercion, coerceLit] using leaf _ hc hd
+    | obj z => simpa only [validateCoercion, coerceLit] using leaf _ hc hd
+  | .nonNull t, l, a, hc, hd => by
+    cases l with
+    | var n => simp [containsVar] at hc
+    | null => simp [validateCoercion, coerceLit, isNonNull]
+    | int z => simpa only [validateCoercion, coerceLit] using validate_eq_coerces P t _ a hc hd
+    | float z => simpa only [validateCoercion, coerceLit] using validate_eq_coerces P t _ a hc hd
+    | str z => simpa only [validateCoercion, coerceLit] using validate_eq_coerces P t _ a hc hd
+    | bool z => simpa only [validateCoercion, coerceLit] using validate_eq_coerces P t _ a hc hd
+    | enum z => simpa only [validateCoercion, coerceLit] using validate_eq_coerces P t _ a hc hd
+    | list z => simpa only [validateCoercion, coerceLit] using validate_eq_coerces P t _ a hc hd
+    | obj z => simpa only [validateCoercion, coerceLit] using validate_eq_coerces P t _ a hc hd
+theorem validateFields_eq_coerces (P : Parse) :
+    ∀ (fs : Fields) (lfs : List (String × Lit)), (∀ p ∈ lfs, containsVar p.2 = false) → noDupKeys lfs = true →
+      (∀ p ∈ lfs, p.2.noDup = true) →
+      validateFields P fs lfs = (coerceLitFields P [] fs lfs).isSome
+  | .nil, _, _, _, _ => by simp [validateFields, coerceLitFields]
+  | .cons name ty d rest, lfs, hc, hnd, hd => by
+    have ihr := validateFields_eq_coerces P rest lfs hc hnd hd
+    have hf : lfs.filter (fun p => p.1 == name && !isUnsetVar [] p.2) = lfs.filter (fun p => p.1 == name) := by
+      apply List.filter_congr
+      intro p hp
+      rw [isUnsetVar_closed (hc p hp)]; simp
+    simp only [validateFields, coerceLitFields, hf, filter_key hnd, any_key_eq_lookup, ihr]
+    cases hl : lfs.lookup name with
+    | none =>
+      simp only [List.all_nil, mapAll, litProvided, List.getLast?_nil, addField, Option.isSome_none]
+      cases d with
+      | some dv => cases coerceLitFields P [] rest lfs <;> simp
+      | none => cases isNonNull ty <;> simp
+    | some l =>
+      obtain ⟨k, hk⟩ := lookup_mem hl
+      have hcl := hc (k, l) hk
+      have ih := validate_eq_coerces P ty l true hcl (hd (k, l) hk)
+      simp only [List.all_cons, List.all_nil, Bool.and_true, mapAll, ih, Option.isSome_some, Bool.or_true]
+      cases hco : coerceLit P [] ty l true with
+      | none => simp [litProvided, addField]
+      | some c =>
+        simp only [litProvided_single (fun hnn => coerceLit_nonNull_not_nil P hnn hcl hco), addField,
+          Option.isSome_some, Bool.true_and]
+        cases coerceLitFields P [] rest lfs <;> simp
+end
+
 end ApiFu.C05
